@@ -37,6 +37,13 @@ theorem cfg_good : cfg = goodCfg host := by decide
     try as text — makes this fail) -/
 theorem cfg_running_probe_known : runningProbe ∈ ["compare", "lenient"] := by decide
 
+/-- obligation on the fact `parentRootStop` (/repo d7107b4, fixes/C05-parent-root-recycled.diff): the lowest-PID stop of
+    parent() is exactly `self._raise_if_pid_reused()` then `return None`, with nothing but the `lowest_pid` assignment
+    before it — so the model's stop (`Fe.rootStop`) runs the identity probe (one more open + read of /proc/<pid>/stat)
+    before it answers None. Any other shape (the statements as text) or the unguarded stop makes this fail
+    (`cfg_good` fails on the unguarded stop as well: `goodCfg.parentRootGuard = true`). -/
+theorem cfg_parent_root_guard : parentRootStop = "guard; return None" ∧ cfg.parentRootGuard = true := by decide
+
 /-- obligation on the shape facts the model hard-codes: as_dict iterates `attrs or valid_names` inside
     `with self.oneshot()`, oneshot() deactivates every cache in a `finally`, and the statements inside each modelled
     try are the ones transcribed in Model/C03.lean (moving one out of / into its try changes the fact) -/
@@ -447,6 +454,31 @@ theorem C03_safe_children (o : Obj) : MethodOK o "children" := by
 theorem C03_safe_parent (o : Obj) : MethodOK o "parent" := by
   unfold MethodOK; rw [cfg_good]
   exact ⟨_, rfl, safe_of_tri (parent_safe _ o)⟩
+
+/-- the world in which the object IS the lowest listed PID: `parent()` takes its lowest-PID stop -/
+def wLow : World :=
+  { target := 101
+    procs := [⟨101, 0, 50, false, false, [(101, false)], [], false⟩,
+              ⟨105, 101, 100, false, false, [(105, false)], [], false⟩] }
+
+/-- **the guarded lowest-PID stop is one more access that can fail** (since /repo d7107b4) — and it fails with psutil
+    errors only. On `wLow`, `Process(101).parent()` / `.parents()`: undisturbed → None / [] after 3 accesses (the listing,
+    then open + read of /proc/101/stat by the identity probe; 1 access before the guard: `preRootGuardCfg`); the process
+    gone from access 1 on → NoSuchProcess(101) (before the guard: None — the stop answered for a process that no longer
+    exists); the probe's open or read refused → NoSuchProcess(101) as well (the region of finding
+    C03-denied-probe-reads-as-reuse now reaches this path too; `OK` holds, `Cause` does not); a zombie → None. All covered
+    by `C03_safe_parent` / `C03_safe_parents_partial`, which quantify over every admissible plan. -/
+theorem C03_parent_root_stop_probe (b : Bool) :
+    runK ⟨b, false⟩ wLow "parent" ⟨wLow, alwaysAlive, noDeny⟩ = some (.ok .none, 3) ∧
+    runK ⟨b, false⟩ wLow "parents" ⟨wLow, alwaysAlive, noDeny⟩ = some (.ok (.procs []), 3) ∧
+    runK ⟨b, false⟩ wLow "parent" ⟨wLow, vanishAt 1, noDeny⟩ = some (.error (.nsp 101), 4) ∧
+    runK ⟨b, false⟩ wLow "parents" ⟨wLow, vanishAt 1, noDeny⟩ = some (.error (.nsp 101), 4) ∧
+    runK ⟨b, false⟩ wLow "parent" ⟨wLow, alwaysAlive, denyAt 1 .EACCES⟩ = some (.error (.nsp 101), 2) ∧
+    runK ⟨b, false⟩ wLow "parent" ⟨wLow, alwaysAlive, denyAt 2 .EPERM⟩ = some (.error (.nsp 101), 3) ∧
+    runK ⟨b, false⟩ wLow "parent" ⟨wLow, zombieFrom 1, noDeny⟩ = some (.ok .none, 3) ∧
+    (Fe.parent (preRootGuardCfg ⟨b, false⟩) wLow.obj ⟨wLow, alwaysAlive, noDeny⟩ {}).2.k = 1 ∧
+    (Fe.parent (preRootGuardCfg ⟨b, false⟩) wLow.obj ⟨wLow, vanishAt 1, noDeny⟩ {}).1 = .ok .none := by
+  cases b <;> decide +kernel
 
 /-- ppid_map() itself lets nothing escape once PermissionError is tolerated -/
 theorem C03_ppid_map_total (c : Ctx) (s : St) (ha : Adm c) (hi : CacheInv s.cache) :
